@@ -508,6 +508,7 @@ func probe(s *Sess, o *sim.Outcome, test string) {
 }
 
 func init() {
+	reg("C13strayake", runRecv)
 	reg("C13parsers", runParser)
 	reg("C13receive", runRecv)
 	reg("C13faults", runFault)
@@ -541,6 +542,35 @@ func TestProp_C13_Receive(t *testing.T) {
 		}
 		sim.Judge(rt, "C13receive", c)
 	})
+}
+
+// TestProp_C13_StrayAKE: every key-exchange state (including both sides having started at once, for three seeds so
+// that either side's commit wins) x every well-formed key-exchange message of another exchange, correctly or
+// foreignly addressed; enumerated because the interesting combinations are one in thousands of random draws.
+func TestProp_C13_StrayAKE(t *testing.T) {
+	defer sim.ClearCrumb()
+	si, sn := sim.Shard()
+	idx := 0
+	for _, v := range []int{3, 2} {
+		for _, state := range []int{0, 1, 2, 3, 4, 5, 7, 10} {
+			for seed := 0; seed < 3; seed++ {
+				for a := 0; a < 8; a++ { // recorded exchange started by either side x its messages
+					for b := 0; b < 3; b++ { // how far the crossing exchange got / addressing
+						if state != 10 && b > 1 {
+							continue
+						}
+						idx++
+						if idx%sn != si {
+							continue
+						}
+						c := &RecvCase{Cfg: SessCfg{V: v, SeedA: 1300 + uint64(seed)*2, SeedB: 1401 + uint64(seed)*6, KeyA: 0, KeyB: 3}, PolA: 0, State: state, Kind: 12, A: a, B: b * 2}
+						sim.Judge(t, "C13strayake", c)
+					}
+				}
+			}
+		}
+	}
+	sim.MarkCompleted("C13strayake", true)
 }
 
 // ---- authenticated but malicious payloads (the peer holds the session keys) ----
